@@ -68,15 +68,15 @@ def evaluate(case) -> Verdict:
         src = shape.replace("«m»", case["m"])
         cfg = {"extra": True, "twice": False, "flags": FLAGS}
         env = envs.make_env(_cfg({"cfg": cfg}, "strict"), PARTIALS)
-        o = oc.outcome_of(lambda: env.from_string(src).render(**BASE))
+        o = oc.render(case, lambda: env.from_string(src), **BASE)
         if not cls.startswith("free:") and not (o[0] == "liquid" and o[1] == "UndefinedError"):
             v.fail(f"strict-accepts:{cls}", f"{src!r} with StrictUndefined -> {oc.short(o)!r:.200}, expected UndefinedError")
         envd = envs.make_env(_cfg({"cfg": cfg}, "default"), PARTIALS)
-        od = oc.outcome_of(lambda: envd.from_string(src).render(**BASE))
+        od = oc.render(case, lambda: envd.from_string(src), **BASE)
         # first clause of the property at this position: a strict type that lets the render succeed agrees with the default type
         for ut in STRICT_TYPES:
             envu = envs.make_env(_cfg({"cfg": cfg}, ut), PARTIALS)
-            ou = oc.outcome_of(lambda: envu.from_string(src).render(**BASE))  # noqa: B023
+            ou = oc.render(case, lambda: envu.from_string(src), **BASE)  # noqa: B023
             if ou[0] == "ok" and (od[0] != "ok" or ou[1] != od[1]):
                 v.fail(f"output-differs:{ut}:{cls.split(':')[0]}", f"{src!r}: {ut} -> {oc.short(ou)!r:.120} but default -> {oc.short(od)!r:.120}")
         if od[0] == "liquid" and od[1] == "UndefinedError":
@@ -84,7 +84,7 @@ def evaluate(case) -> Verdict:
         # however the path came to be missing, the default type yields the same undefined value: the outcome
         # must be the one a plain missing root gives in the same position
         ref_src = shape.replace("«m»", MISSING[0])
-        oref = oc.outcome_of(lambda: envd.from_string(ref_src).render(**BASE))
+        oref = oc.render(case, lambda: envd.from_string(ref_src), **BASE)
         if oc.short(od)[:2] != oc.short(oref)[:2]:
             v.fail(
                 f"default-depends-on-how-missing:{cls.split(':')[0]}",
@@ -98,13 +98,13 @@ def evaluate(case) -> Verdict:
     src = gg.to_source(case["main"])
     data = gd.decode(case["data"])
     envd = envs.make_env(_cfg(case, "default"), PARTIALS)
-    od = oc.outcome_of(lambda: envd.from_string(src).render(**data))
+    od = oc.render(case, lambda: envd.from_string(src), **data)
     if od[0] == "liquid" and od[1] == "UndefinedError":
         v.fail("default-raises:template", f"default Undefined raised UndefinedError: {src!r:.300}")
     saw_undefined = False
     for ut in STRICT_TYPES:
         env = envs.make_env(_cfg(case, ut), PARTIALS)
-        o = oc.outcome_of(lambda: env.from_string(src).render(**data))
+        o = oc.render(case, lambda: env.from_string(src), **data)
         if o[0] == "liquid" and o[1] == "UndefinedError":
             saw_undefined = True
         if o[0] == "ok":
